@@ -15,6 +15,7 @@
 -/
 import NdnVerif.C13.LoopSpec
 namespace Ndn.C13
+namespace LO
 
 /-! ## results up to the allocation counter -/
 
@@ -408,10 +409,12 @@ theorem loopO_spec : LoopSpec true := by
   rw [expectedC_headInit] at h
   simpa [runSlots, Yields] using h
 
+end LO
 end Ndn.C13
 
 /-! ## non-vacuity: a concrete ordered model with junk between the items -/
 namespace Ndn.C13
+namespace LO
 
 /-- binary(7), sequence of naturals(9), optional natural(11) -/
 def exSlots : List Slot :=
@@ -444,4 +447,5 @@ example : DistinctTyps exSlots ∧ GroupsOk exSlots false exSlots exGroups := by
     itemVals, knownTyp, critical, readKind, fits, goMake, maxAlloc, Res.bind, readUintLoop, goInt, beDec]
   constructor <;> intro rest <;> rw [if_neg (by omega)] <;> exact ⟨_, rfl⟩
 
+end LO
 end Ndn.C13
